@@ -123,7 +123,7 @@ def fake_ssh_dir(base, script=FAKE_SSH):
 
 
 # ------------------------------------------------------------------------------------------------
-def run_cli(binary, args, env=None, timeout=60, cwd=None, ulimit_f=None, fake_ssh=None, stdin=None):
+def run_cli(binary, args, env=None, timeout=60, cwd=None, ulimit_f=None, fake_ssh=None, stdin=None, prefix=None):
     """Runs the CLI. Returns dict(exit, stdout, stderr, timed_out, wall_s). exit is negative for a signal."""
     e = dict(os.environ)
     e.pop('RUST_LOG', None)
@@ -133,7 +133,7 @@ def run_cli(binary, args, env=None, timeout=60, cwd=None, ulimit_f=None, fake_ss
     if fake_ssh:
         e['PATH'] = fake_ssh + os.pathsep + e.get('PATH', '')
         e['FAKE_SSH_BINARY'] = binary
-    cmd = [binary] + list(args)
+    cmd = list(prefix or []) + [binary] + list(args)
     if ulimit_f is not None:
         # EFBIG instead of SIGXFSZ
         sh = "trap '' XFSZ; ulimit -f %d; exec \"$@\"" % ulimit_f
